@@ -151,10 +151,14 @@ def run(pid, module, tier, root, seed, quiet=False, evidence=True):
         c = Ctx(root, tier, seed, expand=expand)
         if expand and not c.repo.expanded:
             raise AnalysisError('nothing to inline')
+        # purely structural clauses that need no call resolution come first: what they establish stands even when the
+        # resolver has to give up afterwards
+        if hasattr(module, 'pre'):
+            module.pre(c)
         _, _, _, ambiguous = c.R.resolution_stats()
-        if ambiguous:
-            raise AnalysisError(f'unresolved calls on possible repo receivers: {ambiguous}')
         try:
+            if ambiguous:
+                raise AnalysisError(f'unresolved calls on possible repo receivers: {ambiguous}')
             module.run(c)
         except AnalysisError as e:
             # a violation positively identified before the analysis had to stop is still a violation
